@@ -77,6 +77,15 @@ def run_one(name, tier, seeds, props):
     return out
 
 
+def guard_disk():
+    """The Go build cache grows by a full build per scratch worktree path: trim it before the disk fills up."""
+    free = shutil.disk_usage("/").free
+    if free < 60 << 30:
+        env = dict(os.environ)
+        env["PATH"] = "/root/go/pkg/mod/golang.org/toolchain@v0.0.1-go1.25.6.linux-amd64/bin:" + env.get("PATH", "")
+        subprocess.run(["go", "clean", "-cache"], env=env)
+
+
 def main():
     ap = argparse.ArgumentParser()
     ap.add_argument("names", nargs="+")
@@ -88,6 +97,7 @@ def main():
     seeds = [int(x) for x in a.seeds.split(",")]
     props = [x for x in a.props.split(",") if x]
     os.makedirs(ROOT, exist_ok=True)
+    guard_disk()
     with concurrent.futures.ThreadPoolExecutor(a.jobs) as ex:
         futs = {ex.submit(run_one, n, a.tier, seeds, props): n for n in a.names}
         for f in concurrent.futures.as_completed(futs):
